@@ -298,7 +298,7 @@ func persistMergedRestField(segments []*Segment, dropsIn []*roaring.Bitmap, fiel
 		}
 
 		if !bytes.Equal(prevTerm, term) || prevTerm == nil {
-			err = prepareNewTerm(newSegDocCount, chunkMode, tfEncoder, locEncoder, fieldFreqs, fieldID, enumerator,
+			err = prepareNewTerm(newSegDocCount, chunkMode, tfEncoder, locEncoder, enumerator,
 				dicts, drops)
 			if err != nil {
 				return err
@@ -317,9 +317,11 @@ func persistMergedRestField(segments []*Segment, dropsIn []*roaring.Bitmap, fiel
 		}
 
 		// can no longer optimize by copying, since chunk factor could have changed
-		lastDocNum, lastFreq, lastNorm, bufLoc, err = mergeTermFreqNormLocs(
+		var sumFreq uint64
+		lastDocNum, lastFreq, lastNorm, sumFreq, bufLoc, err = mergeTermFreqNormLocs(
 			fieldsMap, postItr, newDocNums[itrI], newRoaring,
 			tfEncoder, locEncoder, bufLoc, fieldDocTracking)
+		fieldFreqs[uint16(fieldID)] += sumFreq
 
 		if err != nil {
 			return err
@@ -445,8 +447,7 @@ func buildMergedDocVals(newSegDocCount uint64, w *countHashWriter, closeCh chan 
 }
 
 func prepareNewTerm(newSegDocCount uint64, chunkMode uint32, tfEncoder, locEncoder *chunkedIntCoder,
-	fieldFreqs map[uint16]uint64, fieldID int, enumerator *enumerator, dicts []*Dictionary,
-	drops []*roaring.Bitmap) error {
+	enumerator *enumerator, dicts []*Dictionary, drops []*roaring.Bitmap) error {
 	var err error
 
 	// compute cardinality of field-term in new seg
@@ -459,7 +460,6 @@ func prepareNewTerm(newSegDocCount uint64, chunkMode uint32, tfEncoder, locEncod
 			return err
 		}
 		newCard += pl.Count()
-		fieldFreqs[uint16(fieldID)] += newCard
 	}
 	// compute correct chunk size with this
 	var chunkSize uint64
@@ -576,12 +576,12 @@ const numUintsLocation = 4
 func mergeTermFreqNormLocs(fieldsMap map[string]uint16, postItr *PostingsIterator,
 	newDocNums []uint64, newRoaring *roaring.Bitmap,
 	tfEncoder, locEncoder *chunkedIntCoder, bufLoc []uint64, docTracking *roaring.Bitmap) (
-	lastDocNum, lastFreq, lastNorm uint64, bufLocOut []uint64, err error) {
+	lastDocNum, lastFreq, lastNorm, sumFreq uint64, bufLocOut []uint64, err error) {
 	next, err := postItr.Next()
 	for next != nil && err == nil {
 		hitNewDocNum := newDocNums[next.Number()]
 		if hitNewDocNum == docDropped {
-			return 0, 0, 0, nil, fmt.Errorf("see hit with dropped docNum")
+			return 0, 0, 0, 0, nil, fmt.Errorf("see hit with dropped docNum")
 		}
 
 		newRoaring.Add(uint32(hitNewDocNum))
@@ -595,7 +595,7 @@ func mergeTermFreqNormLocs(fieldsMap map[string]uint16, postItr *PostingsIterato
 		err = tfEncoder.Add(hitNewDocNum,
 			encodeFreqHasLocs(uint64(nextFreq), len(locs) > 0), nextNorm)
 		if err != nil {
-			return 0, 0, 0, nil, err
+			return 0, 0, 0, 0, nil, err
 		}
 
 		if len(locs) > 0 {
@@ -607,7 +607,7 @@ func mergeTermFreqNormLocs(fieldsMap map[string]uint16, postItr *PostingsIterato
 
 			err = locEncoder.Add(hitNewDocNum, uint64(numBytesLocs))
 			if err != nil {
-				return 0, 0, 0, nil, err
+				return 0, 0, 0, 0, nil, err
 			}
 
 			for _, loc := range locs {
@@ -621,7 +621,7 @@ func mergeTermFreqNormLocs(fieldsMap map[string]uint16, postItr *PostingsIterato
 				args[3] = uint64(loc.End())
 				err = locEncoder.Add(hitNewDocNum, args...)
 				if err != nil {
-					return 0, 0, 0, nil, err
+					return 0, 0, 0, 0, nil, err
 				}
 			}
 		}
@@ -629,11 +629,12 @@ func mergeTermFreqNormLocs(fieldsMap map[string]uint16, postItr *PostingsIterato
 		lastDocNum = hitNewDocNum
 		lastFreq = uint64(nextFreq)
 		lastNorm = nextNorm
+		sumFreq += uint64(nextFreq)
 
 		next, err = postItr.Next()
 	}
 
-	return lastDocNum, lastFreq, lastNorm, bufLoc, err
+	return lastDocNum, lastFreq, lastNorm, sumFreq, bufLoc, err
 }
 
 func mergeStoredAndRemap(segments []*Segment, drops []*roaring.Bitmap,
